@@ -207,3 +207,24 @@ Proof.
     destruct (mh_unmarshal rest) as [[m r]|e] eqn:E; [discriminate|].
     intros H. inversion H; subst. exact (mh_unmarshal_no_fuel _ E).
 Qed.
+
+(* ---- store.Resume's section loop --------------------------------------------------------------- *)
+From GoCar Require Import Store.
+
+Lemma resume_scan_no_fuel zeof base view : forall fuel pos ii,
+  (1 <= fuel)%nat -> (length view + 1 <= fuel + N.to_nat pos)%nat ->
+  resume_scan fuel zeof base view pos ii <> Err EFuel.
+Proof.
+  induction fuel as [|f IH]; intros pos ii H1 Hf; [lia|]. cbn [resume_scan].
+  destruct (read_uv (drop pos view)) as [len r1 n1| | | |] eqn:E; try discriminate.
+  apply read_uv_consumes in E. rewrite blen_drop in E.
+  destruct (len =? 0) eqn:El; [destruct zeof; discriminate|].
+  destruct (cid_from_reader r1) as [n c p rest| |]; try discriminate.
+  destruct ((n <=? len) && (two63 <=? base + pos + n1 + len)); [discriminate|].
+  unfold blen in E. apply IH; lia.
+Qed.
+
+(* C09 (termination): Resume's rescan never runs out of the fuel `resume` gives it *)
+Theorem resume_scan_terminates zeof base view start :
+  resume_scan (S (length view)) zeof base view start [] <> Err EFuel.
+Proof. apply resume_scan_no_fuel; lia. Qed.
